@@ -34,7 +34,7 @@ Spec == Init /\ [][Next]_vars
 LastWriteWins == [][\A b \in Batches : (ov' = Apply(ov, b)) =>
                       \A i \in 1..Len(b) : (\A j \in (i+1)..Len(b) : b[j][1] # b[i][1]) => ov'[b[i][1]] = b[i][2]]_vars
 \* an overridden cell reports its constant, whatever its formula was (errors included)
-OverriddenIsConstant == \A c \in DOMAIN ov : Ev(c, ov) = Num(ov[c])
+OverriddenIsConstant == \A c \in DOMAIN ov : Ev(c, ov) = OvVal(ov[c])
 \* cells that neither are overridden nor depend on an overridden cell keep their workbook meaning
 RECURSIVE Deps(_)
 Deps(c) == IF c \notin DOMAIN WB THEN {c}
